@@ -31,6 +31,18 @@ def specs(rng, tier, count):
         if mode < 2:
             spec["cond_err"] = "nugget" if mode == 0 else 0.0
         out.append(spec)
+    cells = [(d_, e_, u_) for d_ in range(4) for e_ in range(3) for u_ in (True, False)]
+    geos = ["plain", "plain", "time", "latlon", "plain", "latlon_time"]
+    for r_ in range(1 if tier == "quick" else 6):
+        for c_, cell in enumerate(cells):
+            g = geos[(c_ + r_) % len(geos)]
+            mode = (c_ + r_) % 3
+            spec = KC.gen_spec(rng, variant="Krige", geo=g, dim=(1 + (c_ + r_) % 3 if g == "plain" else None), tier=tier, cell=cell,
+                               geom_mode=[1, 0, 2, 3][(c_ + r_) % 4], exact=(mode == 2),
+                               nugget=(0.0 if mode < 2 else float(np.round(rng.uniform(0.05, 0.5), 3))), norm_prob=0.3)
+            if mode < 2:
+                spec["cond_err"] = "nugget" if mode == 0 else 0.0
+            out.append(spec)
     return out
 
 
